@@ -148,12 +148,12 @@ func (x *X) callValue(fr *Frame, st *State, fv SV, args []SV, sig *types.Signatu
 // module functions whose signature is identical to sig (the possible targets
 // of a call through a function value of that type).
 func (x *X) dynEffects(fr *Frame, st *State, sig *types.Signature, args []SV) {
-	for _, pkg := range x.prog.AllPackages() {
+	for _, pkg := range sortedPkgs(x.prog) {
 		if pkg.Pkg == nil || !isModulePkg(pkg.Pkg.Path(), x.module) {
 			continue
 		}
 		var cands []*ssa.Function
-		for _, m := range pkg.Members {
+		for _, m := range sortedMembers(pkg) {
 			if f, ok := m.(*ssa.Function); ok {
 				cands = append(cands, f)
 				cands = append(cands, f.AnonFuncs...)
@@ -258,6 +258,7 @@ func (x *X) callStatic(fr *Frame, st *State, fn *ssa.Function, args []SV, cc *ss
 		return x.inline(fr, st, fn, args, nil, pos)
 	}
 	if !x.isModuleFn(fn) {
+		x.atCallAsserts(fr, st, fn, args, pos)
 		return x.external(fr, st, fn, args, cc, pos)
 	}
 	c := x.db.byFn[fn]
@@ -315,6 +316,33 @@ func (x *X) inline(fr *Frame, st *State, fn *ssa.Function, args []SV, binds []SV
 }
 
 func (x *X) applyPure(fr *Frame, st *State, fn *ssa.Function, c *Contract, args []SV) []SV {
+	// preconditions of pure functions are obligations at the call site too
+	if x.pure == 0 {
+		vars := x.paramVars(fn, args)
+		resolve := x.fnResolver(fn, nil)
+		callee := funcName(fn)
+		for _, cc := range []*Contract{c, x.defaultRequires(fn)} {
+			if cc == nil {
+				continue
+			}
+			for _, cl := range cc.Requires {
+				env := &specEnv{x: x, st: st, old: nil, vars: vars, fr: fr}
+				x.pure++
+				t, ok := x.evalClause(cl, fn, env, resolve)
+				x.pure--
+				if !ok {
+					continue
+				}
+				x.callSeq[callee]++
+				lbl := fmt.Sprintf("%s#%d", shortName(callee), x.callSeq[callee])
+				if cl.Label != "" {
+					lbl += ":" + cl.Label
+				}
+				x.obligation(st, "pre", lbl, t, token.NoPos, cl.Text, cl.Props)
+				x.vc.assume(mkImplies(st.reach, t))
+			}
+		}
+	}
 	if fn.Signature.Recv() != nil && len(args) > 0 && fn.Object() != nil {
 		// same symbol as interface / cross-package calls of the method
 		rets := x.crossCall(fr, st, fn, args, token.NoPos)
@@ -785,16 +813,42 @@ func (x *X) atCallAsserts(fr *Frame, st *State, callee *ssa.Function, args []SV,
 	for top.parent != nil {
 		top = top.parent
 	}
-	for _, cl := range x.topC.AtCalls {
-		if cl.Callee != callee.Name() {
+	for _, cl0 := range x.topC.AtCalls {
+		if cl0.Callee != callee.Name() && !(callee.Pkg != nil && cl0.Callee == callee.Pkg.Pkg.Name()+"."+callee.Name()) {
 			continue
 		}
+		cl := siteClause(cl0, pos)
 		extra := map[string]types.Type{}
 		vars := map[string]SV{}
-		for i, p := range callee.Params {
-			extra["arg_"+p.Name()] = p.Type()
-			if i < len(args) {
-				vars["arg_"+p.Name()] = args[i]
+		if len(callee.Params) > 0 {
+			for i, p := range callee.Params {
+				extra["arg_"+p.Name()] = p.Type()
+				if i < len(args) {
+					vars["arg_"+p.Name()] = args[i]
+				}
+			}
+		} else {
+			// a function of another module (no body built): name the
+			// arguments after the signature
+			sig, i := callee.Signature, 0
+			if sig.Recv() != nil {
+				extra["arg_recv"] = sig.Recv().Type()
+				if i < len(args) {
+					vars["arg_recv"] = args[i]
+				}
+				i++
+			}
+			for j := 0; j < sig.Params().Len(); j++ {
+				pv := sig.Params().At(j)
+				n := pv.Name()
+				if n == "" || n == "_" {
+					n = fmt.Sprint(j)
+				}
+				extra["arg_"+n] = pv.Type()
+				if i < len(args) {
+					vars["arg_"+n] = args[i]
+				}
+				i++
 			}
 		}
 		resolve, bind := x.localResolver(top, pos, extra)
@@ -929,6 +983,24 @@ func (x *X) invoke(fr *Frame, st *State, recv SV, m *types.Func, args []SV, pos 
 		rv := x.asTerm(recv, rt)
 		if x.pure == 0 {
 			x.safety(st, fr, "nil-invoke", mkNot(T(SBool, "((_ is ANil) "+rv.S+")")), pos)
+			x.atInvokeAsserts(fr, st, m, rv, args, pos)
+		}
+		// inside the declaring package, getters are resolved by case analysis over
+		// the implementing types (their bodies are inlined)
+		if rets, ok := x.invokeByCases(fr, st, rv, m, args, pos); ok {
+			return rets
+		}
+		// a method of the package under verification that receives a pointer to an
+		// opaque buffer (strings.Builder) may write it: the buffer is havoced and
+		// the call is recorded as one event of the caller's output trace
+		for i, a := range args {
+			pt, ok := sig.Params().At(i).Type().Underlying().(*types.Pointer)
+			if !ok || !x.enc.isOpaqueStruct(pt.Elem()) {
+				continue
+			}
+			p := x.ptrOf(a, sig.Params().At(i).Type())
+			x.store(st, p, x.vc.fresh("written", x.enc.sortOf(pt.Elem())))
+			x.outEvent(st, T(SAny, "ANil"))
 		}
 		rets := x.methodUF(st, m, rv, args)
 		x.promotedAxioms(st, m, rv, args, rets)
@@ -1260,4 +1332,191 @@ func (x *X) promotedAxioms(st *State, m *types.Func, recv Term, args []SV, rets 
 		}
 		x.vc.assume(mkImplies(guard, app(SBool, "<", intLit(0), inner)))
 	}
+}
+
+// outEvent records one output event (a rune, a string, or ANil for "a child
+// printed itself") in the ghost cells outCount / outFirst / outLast.
+func (x *X) outEvent(st *State, ev Term) {
+	ck := x.scalarKey("ghost:outCount", x.enc.isz(), func() Term { return x.ic(0) })
+	fk := x.scalarKey("ghost:outFirst", SAny, func() Term { return T(SAny, "ANil") })
+	lk := x.scalarKey("ghost:outLast", SAny, func() Term { return T(SAny, "ANil") })
+	cnt := x.get(st, ck)
+	st.mem[fk] = x.vc.define("outFirst", mkIte(mkEq(cnt, x.ic(0)), ev, x.get(st, fk)))
+	st.mem[lk] = ev
+	st.mem[ck] = x.vc.define("outCount", x.iadd(cnt, x.ic(1)))
+}
+
+// atInvokeAsserts: "atcall <method> assert e" clauses for interface method
+// calls; the receiver is arg_recv, parameters are arg_<name>.
+func (x *X) atInvokeAsserts(fr *Frame, st *State, m *types.Func, recv Term, args []SV, pos token.Pos) {
+	if x.topC == nil || fr == nil {
+		return
+	}
+	top := fr
+	for top.parent != nil {
+		top = top.parent
+	}
+	sig := m.Type().(*types.Signature)
+	for _, cl0 := range x.topC.AtCalls {
+		if cl0.Callee != m.Name() {
+			continue
+		}
+		cl := siteClause(cl0, pos)
+		extra := map[string]types.Type{"arg_recv": sig.Recv().Type()}
+		vars := map[string]SV{"arg_recv": recv}
+		for i := 0; i < sig.Params().Len() && i < len(args); i++ {
+			nm := sig.Params().At(i).Name()
+			if nm == "" || nm == "_" {
+				continue
+			}
+			extra["arg_"+nm] = sig.Params().At(i).Type()
+			vars["arg_"+nm] = args[i]
+		}
+		resolve, bind := x.localResolver(top, pos, extra)
+		if pkg := x.db.pkgOf(x.top); pkg != nil {
+			if err := x.db.compile(cl, pkg.pkg, resolve); err != nil {
+				x.db.errorf("%v", err)
+				continue
+			}
+			for n := range cl.names {
+				resolve(n)
+			}
+		}
+		env := &specEnv{x: x, st: st, old: x.entry, vars: vars, fr: top}
+		env.vars = bind(st, vars)
+		env.ovars = x.entryVars(top)
+		t, ok := x.evalClause(cl, x.top, env, resolve)
+		if !ok {
+			continue
+		}
+		x.callSeq["atcall:"+cl.Label]++
+		lbl := fmt.Sprintf("%s#%d", cl.Callee, x.callSeq["atcall:"+cl.Label])
+		if cl.Label != "" {
+			lbl += ":" + cl.Label
+		}
+		x.obligation(st, "atcall", lbl, t, pos, cl.Text, cl.Props)
+	}
+}
+
+// invokeByCases resolves an interface method call inside the package that
+// declares the interface: if the method of every implementing type is a pure,
+// loop-free getter, the result is the case split over the dynamic type.
+func (x *X) invokeByCases(fr *Frame, st *State, recv Term, m *types.Func, args []SV, pos token.Pos) ([]SV, bool) {
+	if x.top == nil || x.top.Pkg == nil || m.Pkg() != x.top.Pkg.Pkg {
+		return nil, false
+	}
+	sig := m.Type().(*types.Signature)
+	if sig.Results().Len() == 0 {
+		return nil, false
+	}
+	iface, ok := sig.Recv().Type().Underlying().(*types.Interface)
+	if !ok {
+		return nil, false
+	}
+	type cas struct {
+		cond Term
+		fn   *ssa.Function
+		recv SV
+	}
+	var cases []cas
+	for _, cand := range x.implementers(iface) {
+		sel := x.prog.MethodSets.MethodSet(cand).Lookup(m.Pkg(), m.Name())
+		if sel == nil {
+			return nil, false
+		}
+		fn := x.prog.MethodValue(sel)
+		if fn == nil || len(fn.Blocks) == 0 || hasLoops(fn) || !pureGetter(fn, 0) {
+			return nil, false
+		}
+		cond, pv := x.typeTest(recv, cand)
+		cases = append(cases, cas{cond, fn, pv})
+	}
+	if len(cases) == 0 {
+		return nil, false
+	}
+	var sts []*State
+	var rets [][]SV
+	for _, c := range cases {
+		sc := st.clone()
+		sc.reach = x.vc.define("reach", mkAnd(st.reach, c.cond))
+		x.pure++
+		r := x.inline(fr, sc, c.fn, append([]SV{c.recv}, args...), nil, pos)
+		x.pure--
+		sc.reach = c.cond
+		sts = append(sts, sc)
+		rets = append(rets, r)
+	}
+	// a receiver that is none of the implementers (nil, or a type of another
+	// module): the result is the method symbol of the receiver, the same
+	// function of the receiver wherever the case analysis is repeated
+	{
+		var none []Term
+		for _, c := range cases {
+			none = append(none, mkNot(c.cond))
+		}
+		sd := st.clone()
+		sd.reach = mkAnd(none...)
+		sts = append(sts, sd)
+		rets = append(rets, x.methodSym(sd, m.Pkg().Name(), m.Name(), sig, recv, args))
+	}
+	n := sig.Results().Len()
+	out := make([]SV, n)
+	for i := 0; i < n; i++ {
+		var col []SV
+		for _, r := range rets {
+			col = append(col, r[i])
+		}
+		out[i] = x.mergeSV(sts, col, "invoke_"+m.Name())
+	}
+	return out, true
+}
+
+// pureGetter: no stores, no calls other than to other pure getters (depth-limited).
+func pureGetter(fn *ssa.Function, depth int) bool {
+	if depth > 3 {
+		return false
+	}
+	for _, b := range fn.Blocks {
+		for _, in := range b.Instrs {
+			switch in := in.(type) {
+			case *ssa.Store:
+				if a, ok := in.Addr.(*ssa.Alloc); ok && !a.Heap {
+					continue
+				}
+				return false
+			case *ssa.MapUpdate, *ssa.Go, *ssa.Defer, *ssa.Send:
+				return false
+			case *ssa.Call:
+				callee, ok := in.Call.Value.(*ssa.Function)
+				if !ok || in.Call.IsInvoke() {
+					if b, isB := in.Call.Value.(*ssa.Builtin); isB && (b.Name() == "len" || b.Name() == "ssa:wrapnilchk" || b.Name() == "ssa:deferstack") {
+						continue
+					}
+					return false
+				}
+				if len(callee.Blocks) == 0 || hasLoops(callee) || !pureGetter(callee, depth+1) {
+					return false
+				}
+			}
+		}
+	}
+	return true
+}
+
+// siteClause gives a per-call-site copy of an atcall clause: the same text is
+// type-checked in the scope of each site (locals may differ in type there).
+var siteClauses = map[*Clause]map[token.Pos]*Clause{}
+
+func siteClause(cl *Clause, pos token.Pos) *Clause {
+	m := siteClauses[cl]
+	if m == nil {
+		m = map[token.Pos]*Clause{}
+		siteClauses[cl] = m
+	}
+	if c, ok := m[pos]; ok {
+		return c
+	}
+	c := &Clause{Kind: cl.Kind, Label: cl.Label, Props: cl.Props, Text: cl.Text, Callee: cl.Callee, Line: cl.Line}
+	m[pos] = c
+	return c
 }
